@@ -25,6 +25,20 @@ TRUSTED = [
     "apply_matrix_pt, apply_matrix_rect, apply_matrix_norm, drange, the clamp of Plane._getrange",
     "float rounding is outside the theorems: they are stated over any commutative ring / over Q",
 ]
+MANIFEST_ENTRY = {
+    "category": "proof",
+    "technique": "Coq proof (ring/lra/induction over operation sequences) about Gallina regenerated from utils.py by the "
+                 "AST translator, plus model/implementation differential runs of Plane histories",
+    "text": "Affine laws are Coq theorems over every commutative ring about the definitions regenerated from utils.py on each "
+            "run (mult/translate/apply_pt/apply_norm/apply_rect); the rectangle hull is proved over Q; Plane.find = brute "
+            "force over live objects and iteration order are proved for every operation sequence, every bounds/gridsize and "
+            "every query over Q for a hand model whose cell arithmetic (drange, clamp) is generated from source; the model's "
+            "loops are tied to utils.Plane by differential runs on Fractions and floats.",
+    "note": "Trusted: Coq kernel, translator (py2coq), extraction + OCaml driver, harness; Plane's loops/dict/set are modelled "
+            "by hand (Model/Plane.v) and only tied by correspondence; float rounding is outside the theorems (exact Q / "
+            "generic ring); objects are assumed inserted once and boxes well-formed (x0<=x1,y0<=y1).",
+    "design_ref": "DESIGN.md 3.C20",
+}
 ASSUMPTIONS = [
     "objects are inserted at most once (fresh identity) and only live objects are removed; boxes satisfy x0<=x1, y0<=y1; "
     "plane bounds satisfy x0<=x1, y0<=y1 and gridsize>0",
@@ -133,10 +147,10 @@ def gen_history(r):
         b = (Fr(0), Fr(0), Fr(g * r.randint(1, 4)), Fr(g * r.randint(1, 4)))
     elif kind < 0.8:
         x0, y0 = Fr(r.randint(-150, 20)), Fr(r.randint(-150, 20))
-        b = (x0, y0, x0 + r.randint(0, 300), y0 + r.randint(0, 300))
+        b = (x0, y0, x0 + r.randint(0, 6 * g), y0 + r.randint(0, 6 * g))   # <= ~8x8 cells: the model's grid is a closure chain
     else:
         x0, y0 = Fr(r.randint(-600, 100), 4), Fr(r.randint(-600, 100), 4)
-        b = (x0, y0, x0 + Fr(r.randint(0, 1200), 4), y0 + Fr(r.randint(0, 1200), 4))
+        b = (x0, y0, x0 + Fr(r.randint(0, 24 * g), 4), y0 + Fr(r.randint(0, 24 * g), 4))
 
     def coord(lo, hi):
         k = r.random()
